@@ -175,7 +175,13 @@ class HTTP11Connection(ConnectionInterface):
         self._send_event(h11.EndOfMessage(), timeout=timeout)
 
     def _send_event(self, event: h11.Event, timeout: float | None = None) -> None:
-        with map_exceptions({h11.LocalProtocolError: LocalProtocolError}):
+        # h11 converts the Content-Length of the request with int(), which
+        # refuses a string of more than 4300 digits with a ValueError.
+        exc_map = {
+            h11.LocalProtocolError: LocalProtocolError,
+            ValueError: LocalProtocolError,
+        }
+        with map_exceptions(exc_map):
             bytes_to_send = self._h11_state.send(event)
         if bytes_to_send is not None:
             self._network_stream.write(bytes_to_send, timeout=timeout)
